@@ -92,9 +92,11 @@ CLAIMED.update({
     'C01': {'text': 'PARTIAL. Proved without bound (structural induction encoded as a contract on the recursive function): _data_is_binary finds a byte string '
                     'at any depth of lists/tuples/dicts and nothing else; Packet.__init__ promotes EVENT/ACK to BINARY_EVENT/BINARY_ACK exactly when the '
                     'payload contains one (and only those types); add_attachment counts attachments and reports completion exactly at the announced count. '
-                    'NOT proved: the text header scanner/printer (encode/decode string code) and the placeholder substitution '
-                    '(_deconstruct_binary_internal/_reconstruct_binary_internal): z3/cvc5 string theories did not decide int(s[a:b]) and replace chains '
-                    '(see DESIGN.md 10); a change confined to those functions is not detected by this check.',
+                    '_reconstruct_binary_internal is proved (structural induction, the recursive calls replaced by its own contract) to return the tree with every '
+                    'placeholder object replaced by the attachment it numbers, lists and dicts rebuilt item by item in order (spec relation is_recon), for trees whose '
+                    'placeholders are in range. NOT proved: the text header scanner/printer (encode/decode string code: z3/cvc5 string theories did not decide '
+                    'int(s[a:b]) and replace chains, see DESIGN.md 10) and the placeholder extraction _deconstruct_binary_internal (a comprehension whose body '
+                    'appends to the attachment list: outside the executor); those and the round trip itself are covered only by the BOUNDED stand-in bounded/codec.py.',
             'design_ref': '8.1', 'technique': GEN,
             'note': TB + 'json.dumps/loads round trip on JSON-compatible trees assumed; Lean lemma off_pos_iff (lemmas/Lemmas.lean) checked by lean and assumed in the codec world.'},
     'C07': {'text': 'Unbounded proof per function plus composition lemmas: every PubSubManager/AsyncPubSubManager operation either applies the operation '
@@ -108,7 +110,8 @@ CLAIMED.update({
     'C10': {'text': 'Unbounded proof: _handle_eio_disconnect starts a reconnection effort exactly when reconnection is enabled, the loss was not requested by either '
                     'side and no effort exists; _handle_reconnect (loop invariant over the attempt counter, symbolic real-valued delays) waits before attempt k '
                     'for a delay within min(delay*2^(k-1), max) +/- randomization, re-issues connect() with the recorded url/headers/auth/transports/namespaces, '
-                    'stops at the first success or after reconnection_attempts attempts, and ends without a further attempt when the abort event is set.',
+                    'stops at the first success or after reconnection_attempts attempts, and ends without a further attempt when the abort event is set; '
+                    'connect(), whatever its outcome, leaves the reconnect task and the reconnect-abort event alone.',
             'design_ref': '8.10', 'technique': GEN,
             'note': TB + 'random.random() in [0,1); Event.wait(timeout) model; Client.connect() used through an assumed summary (records the attempt; returns or raises '
                          'ConnectionError); real arithmetic for delays (no floating point rounding).'},
